@@ -2,3 +2,5 @@ import OlVerif.Props.C17
 #print axioms OlVerif.C17.list_flat
 #print axioms OlVerif.C17.chain_linear
 #print axioms OlVerif.C17.wrap_list_height
+#print axioms OlVerif.C17.block_height
+#print axioms OlVerif.C17.one_guard_for_the_rest
